@@ -27,6 +27,11 @@ CLAIMED = {
         "Theorems for every ordered pair of number kinds and all values (every double bit pattern): a+b = b+a and a*b = b*a through Number methods, NaN absorbs every operation, the infinity rules (oo + -oo, 0*oo, sign rule, oo/oo), float-never-exact (guarded, with the refuted class RealDouble * Integer 0), Basic-level mul commutativity, Basic-level add commutativity guarded (refuted: zero shortcut with a float operand). Tied exhaustively over all ordered pairs of a 43-value palette x {add, sub, mul, div, pow} through Number methods and Basic add/mul.",
         "Trusted: Coq kernel; Flocq's binary64 as the meaning of IEEE arithmetic (Reals axioms reported); std::pow / libgcc complex division not modelled (skipped in correspondence, oracles still run); known findings listed by key.",
         "7 (C06)"),
+    "C21": (
+        "Rocq proof over an executable model of ODictWrapper / UIntDict (Kronecker substitution with its bit budget, eval_bit, signed-digit decoding) / URatDict / divides_upoly / eval / diff + exact correspondence of coefficient maps",
+        "Unbounded theorems against schoolbook arithmetic on coefficient lists over Z and Q: add, sub, neg, generic dictionary product, Kronecker product UIntDict::mul = schoolbook product for ALL integer polynomials (only the unsigned-int limits deg a + deg b < 2^32 and bit budget < 2^32 as hypotheses; fuel sufficiency and zero-polynomial cases included), pow incl. exponent 0, divides, eval, diff, degree/coefficient queries. Tied by comparing coefficient maps exactly on generated polynomials straddling the Kronecker threshold; from_basic/as_symbolic round trip by correspondence and oracle.",
+        "Trusted: Coq kernel; extraction; GMP as external; hand transcription validated by correspondence; known finding (listed): exponent addition wraps modulo 2^32.",
+        "7 (C21)"),
     "C23": (
         "Rocq proof over an executable model of GaloisFieldDict (all operations incl. the division loops with checked indices, gcd, pow_mod, compose_mod, square-free and factorisation routines with explicit random streams) + exact correspondence of coefficient vectors",
         "Unbounded theorems for every prime p and all polynomials: constructors, +, -, *, negate, shifts, pow, pow_mod, monic, diff, eval, compose_mod are canonical and equal mod p to schoolbook arithmetic; division with remainder (f = q g + r, deg r < deg g, uniqueness, no out-of-range access, zero divisor throws); gcd terminates and is the monic greatest common divisor; lcm partial. Factorisation/square-free results are covered by exact correspondence (mirrored random streams) and by driver oracles (product, monic, brute-force/Rabin irreducibility) only, not by theorems.",
